@@ -871,7 +871,7 @@ FNS_HEADER = """(* GENERATED by translator/gen.py from the current /repo working
    as expressions); Props/C04.v proves that they are the lookups of Model/History.v. *)
 From Coq Require Import List NArith ZArith Bool.
 Import ListNotations.
-From MHL Require Import Gen.Generated Model.History Model.Tree Model.Emit.
+From MHL Require Import Gen.Generated Model.Base Model.Ignore Model.History Model.Tree Model.Emit.
 Definition is_none {A} (o : option A) : bool := match o with None => true | Some _ => false end.
 Definition opt_action_eqb (a b : option action) : bool :=
   match a, b with Some x, Some y => action_eqb x y | None, None => true | _, _ => false end.
@@ -1227,6 +1227,55 @@ def tx_directory_entries(fn, item):
             "  directory_hash_entries.\n")
 
 
+def tx_ignore_spec(repo):
+    """ignore.MHLIgnoreSpec: __init__, set_patterns, _append_patterns_list, _append_patterns_from_file, get_pattern_list.
+    SHAPE-LOCKED: the bodies must be exactly the recorded texts; the emitted Gallina follows them statement by statement
+    (list.extend over a generator expression consumes it lazily: each line is tested against the list as grown so far;
+    the file is given as its lines without terminator, [] being the line that is only a line feed)."""
+    item = "MHLIgnoreSpec"
+    mod = parse(repo, "ascmhl/ignore.py")
+    cls = find_class(mod, "MHLIgnoreSpec", item)
+    want = {
+        "__init__": (["self", "existing_pattern_list", "new_pattern_list", "new_pattern_file"],
+                     ["self._ignore_list = []", "self.set_patterns(existing_pattern_list, new_pattern_list, new_pattern_file)"]),
+        "set_patterns": (["self", "existing_pattern_list", "new_pattern_list", "new_pattern_file"],
+                         ["self._ignore_list = []",
+                          "if existing_pattern_list:\n    self._append_patterns_list(existing_pattern_list)\nelse:\n    self._append_patterns_list(default_ignore_list())",
+                          "if new_pattern_list:\n    self._append_patterns_list(new_pattern_list)",
+                          "if new_pattern_file:\n    self._append_patterns_from_file(new_pattern_file)"]),
+        "_append_patterns_list": (["self", "patterns_to_append"],
+                                  ["if patterns_to_append:\n    self._ignore_list.extend((line for line in patterns_to_append if line not in self._ignore_list))"]),
+        "_append_patterns_from_file": (["self", "filepath"],
+                                       ["patters_from_file = []",
+                                        "if filepath:\n    with open(filepath, 'r') as fh:\n        patters_from_file.extend((line.rstrip('\\n') for line in fh if line != '\\n'))\n"
+                                        "        self._append_patterns_list(patters_from_file)"]),
+        "get_pattern_list": (["self"], ["return self._ignore_list.copy()"]),
+        "get_path_spec": (["self"], ["return pathspec.PathSpec.from_lines('gitwildmatch', iter(self._ignore_list))"]),
+    }
+    for name, (args, body) in want.items():
+        fn = find_func(cls.body, name, item + "." + name)
+        if [a.arg for a in fn.args.args] != args or stmts_of(fn) != body:
+            fail(item + "." + name, f"body differs from the recorded one: {stmts_of(fn)}")
+    return ("(* ignore.py:MHLIgnoreSpec (shape-locked) *)\n"
+            "Definition src_append_patterns_list (ignore_list patterns_to_append : list text) : list text :=\n"
+            "  if negb (is_nil patterns_to_append)\n"
+            "  then fold_left (fun ignore_list line => if negb (mem_text line ignore_list) then ignore_list ++ [line] else ignore_list)\n"
+            "                 patterns_to_append ignore_list\n"
+            "  else ignore_list.\n"
+            "Definition src_append_patterns_from_file (ignore_list : list text) (filepath : option (list text)) : list text :=\n"
+            "  match filepath with\n"
+            "  | Some fh => src_append_patterns_list ignore_list (filter (fun line => negb (text_eqb line [])) fh)\n"
+            "  | None => ignore_list\n"
+            "  end.\n"
+            "Definition src_set_patterns (existing_pattern_list new_pattern_list : list text) (new_pattern_file : option (list text)) : list text :=\n"
+            "  let ignore_list := @nil text in\n"
+            "  let ignore_list := if negb (is_nil existing_pattern_list) then src_append_patterns_list ignore_list existing_pattern_list\n"
+            "                     else src_append_patterns_list ignore_list default_ignore in\n"
+            "  let ignore_list := if negb (is_nil new_pattern_list) then src_append_patterns_list ignore_list new_pattern_list else ignore_list in\n"
+            "  let ignore_list := match new_pattern_file with Some _ => src_append_patterns_from_file ignore_list new_pattern_file | None => ignore_list end in\n"
+            "  ignore_list.\n")
+
+
 def generate_fns(repo):
     """-> (text of GeneratedFns.v, [error strings]); a function whose source is outside the translated fragment is left out
     (its obligations then do not build -- only the property file that names it is affected), the others are still emitted"""
@@ -1253,6 +1302,7 @@ def generate_fns(repo):
     add(lambda: tx_exit_decision(repo, "create_for_folder_subcommand", "src_create_exit", with_folders=True))
     add(lambda: tx_chain_check(repo))
     add(lambda: tx_directory_entries(hist_fn("find_directory_hash_entries_for_path"), "find_directory_hash_entries_for_path"))
+    add(lambda: tx_ignore_spec(repo))
     return "\n".join(parts), errors
 
 
@@ -1308,7 +1358,7 @@ def main(argv):
             with open(path + ".tmp", "w", encoding="utf-8") as fh:
                 fh.write(content)
             os.replace(path + ".tmp", path)
-    print(json.dumps({"ok": True, "changed": changed, "items": len(summary) + 10 - len(fn_errors), "shape_warnings": WARNINGS,
+    print(json.dumps({"ok": True, "changed": changed, "items": len(summary) + 11 - len(fn_errors), "shape_warnings": WARNINGS,
                       **({"function_translation_failed": fn_errors} if fn_errors else {})}))
     return 0
 
